@@ -6,6 +6,7 @@ import (
 	"os"
 	"os/exec"
 	"path/filepath"
+	"strings"
 )
 
 // propInfo is the constant description of a check as reported by the worker
@@ -167,7 +168,34 @@ func selftest() int {
 		fmt.Fprintln(os.Stderr, "verif selftest: reference-model self-test failed")
 		return 2
 	}
+	// the instrumentation must preserve semantics: the repository's own suite
+	// has to pass on the instrumented copy (no scheduler installed: Yield is a
+	// load and a return, map ranges follow the canonical order)
+	dir := scratch()
+	defer os.RemoveAll(dir)
+	copyDir := filepath.Join(dir, "repo")
+	if err := makeInstrumentedCopy(dir, copyDir); err != nil {
+		fmt.Fprintln(os.Stderr, "verif selftest: cannot instrument a copy of /repo:", err)
+		return 2
+	}
+	t := exec.Command("go", "test", "-vet=off", "-count=1", ".")
+	t.Dir = copyDir
+	t.Env = goEnv()
+	out, err := t.CombinedOutput()
+	if err != nil {
+		fmt.Fprintf(os.Stderr, "verif selftest: the repository's suite fails on the instrumented copy:\n%s\n", out)
+		return 2
+	}
+	fmt.Printf("verif selftest: repository suite passes on the instrumented copy: %s", lastLine(out))
 	return 0
+}
+
+func lastLine(b []byte) string {
+	s := strings.TrimRight(string(b), "\n")
+	if i := strings.LastIndex(s, "\n"); i >= 0 {
+		s = s[i+1:]
+	}
+	return s + "\n"
 }
 
 func mapOrderNote(p *propInfo) string {
